@@ -31,6 +31,27 @@ theorem kinv_release {s s' : State} {t : Nat} {pc pc' : PC} (hk : KInv s) (hpc :
   have := hk.le1
   exact ⟨by omega, by constructor <;> intro h <;> omega⟩
 
+theorem kinv_sig {s s' : State} {t u : Nat} {pc pc' pcu : PC} (hk : KInv s) (hpc : s.pcs[t]? = some pc)
+    (hu : s.pcs[u]? = some pcu) (hsl : isSleeping pcu = true)
+    (hp : s'.pcs = (s.pcs.set u (wokenOf s u)).set t pc') (hh : holds pc' = holds pc) (hw : s'.w = s.w) : KInv s' := by
+  have hpcu : holds pcu = false := by cases pcu <;> simp [isSleeping] at hsl <;> rfl
+  have hwk : holds (wokenOf s u) = false := rfl
+  have h1 : (s.pcs.set u (wokenOf s u)).countP holds = s.pcs.countP holds :=
+    countP_set_same holds hu (by rw [hwk, hpcu])
+  refine kinv_same hk ?_ (by rw [hw])
+  rw [hp]
+  by_cases hut : u = t
+  · subst hut
+    rw [hu] at hpc; cases hpc
+    have hlt : u < s.pcs.length := by
+      rcases Nat.lt_or_ge u s.pcs.length with h | h
+      · exact h
+      · rw [List.getElem?_eq_none h] at hu; cases hu
+    have h2 : (s.pcs.set u (wokenOf s u))[u]? = some (wokenOf s u) := by simp [hlt]
+    rw [countP_set_same holds h2 (by rw [hh, hwk, hpcu]), h1]
+  · have h2 : (s.pcs.set u (wokenOf s u))[t]? = some pc := by rw [List.getElem?_set]; simp [hut, hpc]
+    rw [countP_set_same holds h2 hh, h1]
+
 set_option maxHeartbeats 2000000 in
 theorem kinv_step {s s' : State} {t : Nat} {pc : PC} {a : Act} (hk : KInv s) (hpc : s.pcs[t]? = some pc)
     (h : stepAt s t pc a = .ok s') : KInv s' := by
@@ -40,8 +61,21 @@ theorem kinv_step {s s' : State} {t : Nat} {pc : PC} {a : Act} (hk : KInv s) (hp
   all_goals (simp only [Except.ok.injEq] at h; subst h)
   all_goals (try contradiction)
   all_goals (try (exact hk))
-  all_goals (try (refine kinv_set hk hpc ?_ ?_ ?_ <;>
+  all_goals (try (refine kinv_set hk hpc rfl ?_ ?_ <;>
     first | rfl | (simp [State.setPc, holds, holds_retPc, afterEnqueue]; done) | (cases ‹Ret› <;> rfl) | (cases ‹Kind› <;> cases ‹Bool› <;> rfl)))
-  all_goals (trace_state; sorry)
+  all_goals (try (refine kinv_set hk hpc rfl ?_ rfl; first | (cases ‹Kind› <;> rfl) | (cases ‹Ret› <;> rfl)))
+  case casW.lk0.isFalse.isTrue.isTrue => exact kinv_acquire hk hpc rfl rfl rfl (by omega) (by simp)
+  case casW.slow0.isFalse.isTrue.isTrue =>
+    exact kinv_same hk (by simp [countP_set_same holds hpc (show holds (PC.eq0 Kind.mtx) = holds PC.slow0 from rfl)])
+      (by simp; omega)
+  case casW.slow2.isFalse.isTrue.isTrue => exact kinv_acquire hk hpc rfl rfl rfl (by omega) (by simp)
+  case swapW.ul.isFalse.isFalse.isFalse => exact kinv_release hk hpc rfl rfl rfl rfl
+  case naJ.st1.isTrue =>
+    refine kinv_same hk ?_ (by simp)
+    have h1 : (List.map (wakeJ t) s.pcs)[t]? = some (wakeJ t PC.st1) := by simp [hpc]
+    simp only
+    rw [countP_set_same holds h1 (by rfl), countP_map_wakeJ]
+  all_goals (try (exact kinv_release hk hpc rfl rfl rfl rfl))
+  all_goals (exact kinv_sig hk hpc (by assumption) (by assumption) rfl rfl rfl)
 
 end Dora.Wait.Mtx
